@@ -200,7 +200,7 @@ class XmlContext:
         choices = [
             (clazz, get_field_diff(clazz))
             for types in self.xsi_cache.values()
-            for clazz in types
+            for clazz in tuple(types)  # local_names_match may remove clazz from types
             if self.local_names_match(field_names, clazz)
         ]
 
